@@ -90,6 +90,7 @@ class Prop:
         borrowed = 0
         fails = []
         ops = [l for l in lines if l.strip()]
+        prev_w = None       # writableBytes() reported by the previous step of the same buffer
         for i, op in enumerate(ops):
             if i >= len(blocks):
                 fails.append(("trace", "no output for step %d `%s`" % (i, op)))
@@ -101,6 +102,11 @@ class Prop:
                 break
             if obs == ["reject"] or obs == ["bad-op"]:
                 continue
+            if obs and obs[0].startswith("readFd-error"):
+                # the harness calls readFd only after it has put at least one byte into the descriptor
+                fails.append(("readFd-error", "step %d `%s`: readFd returned -1 (errno %s) although %d bytes were "
+                              "available on the descriptor" % (i, op[:60], obs[0].split()[-1], len(parse_bytes(op.split()[1])))))
+                break
             st = dict(kv.split("=", 1) for kv in obs[0].split()[1:])
             crc = next((int(l.split("=")[1]) for l in blk if l.startswith("# crc=")), None)
             env = [l for l in blk if l.startswith("< ")]
@@ -158,6 +164,9 @@ class Prop:
                 n = int(env[0].split()[2]) if env else 0
                 if n > len(avail):
                     fails.append(("readFd", "step %d: readFd reports %d of %d available bytes" % (i, n, len(avail))))
+                if prev_w is not None and n > prev_w + 65536:
+                    fails.append(("readFd-cap", "step %d `%s`: one readFd call took %d bytes, more than writable (%d) + 64 KiB"
+                                  % (i, op[:60], n, prev_w)))
                 content += avail[:n]
                 exp_ret = str(n)
             if int(st["r"]) != len(content):
@@ -173,6 +182,7 @@ class Prop:
                 fails.append(("cheap-prepend", "step %d `%s`: prependable=%s with %d bytes borrowed" % (i, op[:60], st["p"], borrowed)))
             if fails:
                 break
+            prev_w = int(st["w"])
         return fails
 
     # ------------------------------------------------------------------ generators
@@ -192,6 +202,24 @@ class Prop:
               "appendInt 4 -2", "prependInt 2 513", "readInt 1", "readInt 8", "peekInt 4", "findCRLF -", "findEOL 1",
               "readFd g:77:9", "readFd g:78:70000", "write g:9:1", "swapfresh 1 g:4:3"]
         return a
+
+    def readfd_boundary_cases(self):
+        """what is pending on the descriptor sits exactly at / next to the most one call may take (writable + 64 KiB),
+        for fresh buffers, buffers with content and buffers whose writable area was consumed"""
+        lines = []
+        for init in (0, 1, 8, 16, 1024, 4096):
+            for pre in ([], ["append g:3:5"], ["append g:3:%d" % init], ["append g:3:7", "retrieve 3"]):
+                w = init - sum(int(x.rsplit(":", 1)[1]) for x in pre if x.startswith("append"))
+                if w < 0:
+                    continue
+                for delta in (-1, 0, 1, 65536, 65537, 200000):
+                    n = w + 65536 + delta
+                    lines.append("new %d" % init)
+                    lines.extend(pre)
+                    lines.append("readFd g:%d:%d" % (n % 251 + 1, n))
+                    lines.append("readFd g:7:3")
+                    lines.append("retrieve 2")
+        return lines
 
     def exhaustive_cases(self, depth):
         alpha = self.exhaustive_alphabet()
@@ -365,12 +393,33 @@ class Prop:
             mo = ctx.run_model(c, b, timeout=120)
             ctx.mismatches.append((c, ctx.compare(c, b, mo) or mismatch))
 
+    def mt_readfd(self, ctx, fl):
+        """free-running scenario (oracle only, no model): T threads, each with its own socketpair, its own Buffer and its own
+        byte value, call readFd concurrently with more pending than the writable area holds, so that every call spills.
+        Buffer is documented as not thread safe PER OBJECT; distinct objects on distinct threads (one per connection, one
+        loop thread each) must not influence each other - storage shared between calls shows here"""
+        exe = ctx.exe("buffer_drv", fl)
+        threads, rounds = (4, 3000) if ctx.quick() else (6, 20000)
+        case = Case("buffer", ["mtReadFd %d %d" % (threads, rounds)], "mt-readfd")
+        impl, err = ctx.run_impl(exe, case, timeout=600)
+        obs = [l for b in impl for l in ctx.observable(b)]
+        ctx.count("mt_readfd_rounds", threads * rounds)
+        ctx.extra["mt_readfd"] = {"threads": threads, "rounds_per_thread": rounds, "result": obs[:2]}
+        ctx.record(case, impl, nontrivial=True)
+        if obs[:1] != ["mt ok"]:
+            kind = "crash" if any(l.startswith("<<") for l in obs) else "mt-content"
+            ctx.oracle_failures.append((case, kind, "concurrent readFd on %d distinct buffers: %s" % (threads, "; ".join(obs)[:300])))
+
     def correspondence(self, ctx, replay=None):
         flavours = ["dbg"] if ctx.quick() else ["dbg", "asan"]
         ctx.extra["flavours"] = flavours
         if replay:
             with open(replay) as f:
                 lines = [l.rstrip("\n") for l in f if l.strip() and not l.startswith("#") and not l.startswith("engine=")]
+            if lines and lines[0].startswith("mtReadFd"):
+                for fl in flavours:
+                    self.mt_readfd(ctx, fl)
+                return
             for fl in flavours:
                 exe = ctx.exe("buffer_drv", fl)
                 case = Case("buffer", lines, "replay")
@@ -390,6 +439,12 @@ class Prop:
                     lines = [l.rstrip("\n") for l in f if l.strip() and not l.startswith("#") and not l.startswith("engine=")]
                 self.run_batch(ctx, exe, lines, "corpus:" + os.path.basename(p))
                 ctx.count("corpus_cases")
+            if ctx.stop():
+                return
+            self.run_batch(ctx, exe, self.readfd_boundary_cases(), "readfd-boundary")
+            if ctx.stop():
+                return
+            self.mt_readfd(ctx, fl)
             if ctx.stop():
                 return
             depth = 2 if ctx.quick() else 3
